@@ -46,6 +46,12 @@ theorem foldInsert_get_congr [Add K] [Mul K] (fs : List (Fld K)) (out out' : Arr
     exact ih _ _ (by rw [insertArr_s0, insertArr_s0, h0]) (by rw [insertArr_s1, insertArr_s1, h1])
       (insertArr_get_congr f out out' w i j h0 h1 h)
 
+/-- the composition of `_fft2` read from the source is `fftshift ∘ fft2(norm='ortho') ∘ ifftshift`: the step before the transform
+reads index `(i + n/2) mod n` (`np.fft.ifftshift`), the step after it `(i - n/2) mod n` (`np.fft.fftshift`), and the norm is ortho.
+(A swap of the two shifts — wrong on odd grids — or another norm changes the generated definitions and this stops checking.) -/
+theorem fft2_composition (n i : Int) :
+    Gen.fft2InnerIdx n i = npIfftshiftIdx n i ∧ Gen.fft2OuterIdx n i = npFftshiftIdx n i ∧ Gen.fft2Norm = 1 := ⟨rfl, rfl, rfl⟩
+
 theorem scratchTooSmall_true_iff (scr : Arr K) (S : Int × Int) :
     scratchTooSmall (some scr) S = true ↔ scr.s0 < S.1 ∨ scr.s1 < S.2 := by
   simp only [scratchTooSmall, Gen.fftScratchTooSmall, Bool.not_eq_true', Bool.and_eq_false_iff, decide_eq_false_iff_not]; omega
